@@ -355,7 +355,7 @@ def corpus_graphs(acyclic_only=True):
     return uniq
 
 
-def trace_corpus(rng, tier, conditions, quick_n=150, nmax=7):
+def trace_corpus(rng, tier, conditions, quick_n=150, nmax=7, keep=None):
     """Queries from harness/corpus/id_traces.json (one per shape of run of the ID / IDC recursion, built by tools/mktracecorpus.py), each under a fresh
     permutation of the node identifiers (so names, insertion order and ties in the topological order change from run to run)."""
     import json, os
@@ -365,6 +365,8 @@ def trace_corpus(rng, tier, conditions, quick_n=150, nmax=7):
     except OSError:
         return []
     entries = [e for e in entries if bool(e.get("Z")) == conditions and len(e["g"]["nodes"]) <= nmax and (conditions or e["X"])]
+    if keep is not None:
+        entries = [e for e in entries if keep(e["shape"])]
     if tier == "quick" and len(entries) > quick_n:
         entries = rng.sample(entries, quick_n)
     out = []
